@@ -64,5 +64,5 @@ TRUSTED = ["the expected words in contracts/C01/u_riscv_forms.cpp are a hand tra
 MANIFEST = {
     "text": "Per instruction form (mnemonic x source mode x destination mode x size suffix) the real MSP430 encoder is compared with the manual's encoding for all register numbers, all 32-bit operand values and all even load addresses; the disassembler length contract (C08) composes to 'decodes exactly the emitted bytes'.",
     "note": "Claimed for the MSP430 core double-operand instructions; for RV32I the loads, stores, I-type ALU instructions, branches and jal (34 forms: all registers, all 32-bit operand values, all word-aligned addresses) and the B-type/J-type immediate encoder/decoder pair are under contract; the text round trip, MSP430X and the other CPUs are not decided (DESIGN 4, C01 gap).",
-    "technique": "CBMC contract harness (token-script contract, spec function from SLAU144) on asm/msp430.cpp + core/add_bin.cpp + the real cpu_list row",
+    "technique": "CBMC contract harness (token-script contract, spec functions from SLAU144 and the RISC-V manual) on asm/msp430.cpp + core/add_bin.cpp + the real cpu_list row, asm/riscv.cpp + table/riscv.cpp, and the immediate encoders/decoders of asm/riscv.cpp and disasm/riscv.cpp",
 }
